@@ -15,9 +15,9 @@ from ..metrics_table import NAMES, SQRT_FORMS, T, reference
 
 ID = "C08"
 RULE = ("Per case one metric and a triple (x,y,z) from its domain in one input class: independent, identical (y=x), "
-        "parallel (y=c*x), one-dimensional, zero-containing, collinear triple, near-degenerate (y~x); lengths 1..33 and, for 6% of cases, 150 / 784. Judged: finite for "
+        "parallel (y=c*x), one-dimensional, zero-containing, collinear triple, near-degenerate (y~x), tiny (components on a 0.8e-20 lattice around the library's EPSILON); lengths 1..33 and, for 6% of cases, 150 / 784. Judged: finite for "
         "d(x,y),d(y,x),d(x,x); symmetric |dxy-dyx|<=1e-12*scale (flag s); d>=-1e-10*max(S,1) (flag n); |d(x,x)|<=1e-10*max(S,1) "
-        "[sqrt of that for square-root forms] (flag z); d(x,z)<=d(x,y)+d(y,z)+1e-9*max(sum,1) (flag t). "
+        "[sqrt of that for square-root forms] (flag z); d(x,z)<=d(x,y)+d(y,z)+1e-9*sum+1e-13*n[*1e5 for the log forms] (flag t). "
         "Non-trivial: length>=2 or class dim1; distinct = distinct (metric, triple) hash; cells = metric x axiom x class.")
 ASSUMPTIONS = [
     "which metric claims which axiom on which domain is the fixed table in opfmon/metrics_table.py (printed in this evidence file)",
@@ -30,9 +30,9 @@ BUDGET = {
     "thorough": {"cases": 2000000, "seconds": 900, "shards": 16},
 }
 REQUIRED_OBS = ["finite_checked", "symmetric_checked", "nonneg_checked", "zero_self_checked", "triangle_checked",
-                "class:identical", "class:parallel", "class:zeros", "class:dim1", "class:collinear"]
+                "class:identical", "class:parallel", "class:zeros", "class:dim1", "class:collinear", "class:tiny"]
 MIN_NONTRIVIAL = 1000
-CLASSES = ["indep", "identical", "parallel", "dim1", "zeros", "collinear", "near"]
+CLASSES = ["indep", "identical", "parallel", "dim1", "zeros", "collinear", "near", "tiny"]
 LENGTHS = [1, 2, 3, 5, 8, 16, 33]
 
 
@@ -46,9 +46,12 @@ def generate(rng, tier, idx):
     if cls == "dim1":
         n = 1
     zeros = cls == "zeros" and (kind == "N" or (dec and kind in ("P", "Q")))
-    x = dom_vec(rng, kind, n, zeros=zeros)
-    y = dom_vec(rng, kind, n, zeros=zeros)
-    z = dom_vec(rng, kind, n, zeros=zeros)
+    tiny = cls == "tiny"          # all three on a lattice of step 0.8e-20 (R and N domains): straddles the library's EPSILON
+    if tiny and rng.random() < 0.5:
+        n = int(rng.choice([1, 2, 3]))
+    x = dom_vec(rng, kind, n, zeros=zeros, tiny=tiny)
+    y = dom_vec(rng, kind, n, zeros=zeros, tiny=tiny)
+    z = dom_vec(rng, kind, n, zeros=zeros, tiny=tiny)
     if cls == "identical":
         y = x.copy()
     elif cls == "parallel":
@@ -130,7 +133,7 @@ def check(case):
         res.cell(name, "tri", cls)
         if not (math.isfinite(dyz) and math.isfinite(dxz)):
             res.violate("finite", "C08/not-finite", f"{name}: d(y,z)={dyz!r} d(x,z)={dxz!r}")
-        elif dxz > dxy + dyz + 1e-9 * max(dxy + dyz, 1.0):
+        elif dxz > dxy + dyz + 1e-9 * (dxy + dyz) + 1e-13 * len(X) * (1e5 if name.startswith("log_") else 1.0):
             res.violate("triangle", "C08/triangle", f"{name}: d(x,z)={dxz!r} > d(x,y)+d(y,z)={dxy + dyz!r} x={X} y={Y} z={Z}")
     return res
 
